@@ -33,6 +33,7 @@ Inductive incr := IConst (n : nat) | ILenErr.          (* errors += <int> | erro
 Definition ev (i : incr) (nerr : nat) : nat := match i with IConst n => n | ILenErr => nerr end.
 
 Record skel := Skel {
+  k_combo_first : bool;  (* :227-228 argp.error(-t without -m) stands BEFORE `if errors: return errors` (:266) *)
   k_outdir : nat;        (* compiler.py:240-242  not args.outdir.is_dir()            *)
   k_path : nat;          (* :243-246  per PATH that does not exist                  *)
   k_opt : nat;           (* :262-264  per -O that is not NAME=VALUE                 *)
@@ -54,11 +55,11 @@ Record skel := Skel {
    when the translator does not recognise the shape of the source, and as the non-vacuity witness
    of the side condition *)
 Definition head_skel : skel :=
-  Skel 1 1 1 1 ILenErr 1 1 1 0 1 1
+  Skel true 1 1 1 1 ILenErr 1 1 1 0 1 1
        [HException] [[HOSError]; [HException]] [HException] [HException].
 (* the table before 52ae5a2: parse_file caught (KeyError, AttributeError, OSError) only *)
 Definition narrow_skel : skel :=
-  Skel 1 1 1 1 ILenErr 1 1 1 0 1 1
+  Skel true 1 1 1 1 ILenErr 1 1 1 0 1 1
        [HKeyError; HAttributeError; HOSError] [[HOSError]; [HException]] [HException] [HException].
 
 (* ---- invocation facts --------------------------------------------------------- *)
@@ -147,10 +148,12 @@ Definition main_with (sk : skel) (f : facts) : outcome :=
   | AError => Exit 2                                                   (* :216 argp.parse_args *)
   | AExit0 => Exit 0
   | AOk =>
-    if negb (is_tnone (f_target f)) && is_nil (f_models f) then Exit 2 (* :227-228 argp.error *)
+    let combo := negb (is_tnone (f_target f)) && is_nil (f_models f) in
+    if k_combo_first sk && combo then Exit 2                           (* :227-228 argp.error *)
     else
       let e1 := usage_errors sk f in
       if negb (e1 =? 0) then Exit e1                                   (* :266-267 *)
+      else if combo then Exit 2                 (* only for a table with the check moved below :266 *)
       else match f_target f with
       | TCasadi =>                                                     (* :296-328 *)
         if is_nil (f_files f) then Exit (k_nofiles_c sk)
@@ -204,7 +207,7 @@ Definition count (f : facts) : nat :=
    (the ambiguous-file case through `if not model_dir`), the parse-error count is the number of
    error files, and the handlers around translate/flatten/transfer catch every Exception *)
 Definition skel_ok (sk : skel) : bool :=
-  (k_outdir sk =? 1) && (k_path sk =? 1) && (k_opt sk =? 1) && (k_nofiles_s sk =? 1)
+  k_combo_first sk && (k_outdir sk =? 1) && (k_path sk =? 1) && (k_opt sk =? 1) && (k_nofiles_s sk =? 1)
   && (match k_parse sk with ILenErr => true | _ => false end)
   && (k_translate sk =? 1) && (k_flatten sk =? 1) && (k_nofiles_c sk =? 1)
   && (k_ambig sk =? 0) && (k_nodir sk =? 1) && (k_transfer sk =? 1)
